@@ -24,7 +24,7 @@ type Gamma struct {
 	// than 0. If Alpha == 1, this is equivalent to an exponential distribution.
 	Alpha float64
 	// Beta is the rate parameter of the distribution. Beta must be greater than 0.
-	// If Beta == 2, this is equivalent to a Chi-Squared distribution.
+	// If Beta == 1/2, this is equivalent to a Chi-Squared distribution.
 	Beta float64
 
 	Src rand.Source
